@@ -90,9 +90,27 @@ func withPV(pv int, tags map[string]string) quiet.Opt {
 	}
 }
 
-func (e *tagEnv) node(prefix string, pv int, tags map[string]string) (*quiet.Node, error) {
+var errPanicked = fmt.Errorf("panicked")
+
+// node creates a quiet node; a panic inside serf.Create / memberlist.Create (metadata that does not fit) is
+// returned as errPanicked
+func (e *tagEnv) node(prefix string, pv int, tags map[string]string) (n *quiet.Node, err error) {
 	e.names++
+	defer func() {
+		if r := recover(); r != nil {
+			n, err = nil, errPanicked
+		}
+	}()
 	return quiet.NewNode(e.net, fmt.Sprintf("%s-%d", prefix, e.names), nil, withPV(pv, tags))
+}
+
+func setTags(n *quiet.Node, tags map[string]string) (err error) {
+	defer func() {
+		if r := recover(); r != nil {
+			err = errPanicked
+		}
+	}()
+	return n.Serf.SetTags(tags)
 }
 
 func (e *tagEnv) receiver(pv int) *quiet.Node {
@@ -161,7 +179,7 @@ func (e *tagEnv) runTagsInput(st h.Step) map[string]interface{} {
 		defer shutdown(a)
 		meta0, _ := nodeMeta(a, 512)
 		b.Ev.NotifyJoin(b.MLNode(a.Name, a.Tr, meta0))
-		if err := a.Serf.SetTags(tags); err != nil {
+		if err := setTags(a, tags); err != nil {
 			return obs
 		}
 		meta, p := nodeMeta(a, 512)
@@ -207,6 +225,10 @@ func (e *tagEnv) runSizeInput(st h.Step) map[string]interface{} {
 	switch st.Str("via") {
 	case "create":
 		a, err = e.node("s", pv, tags)
+		if err == errPanicked { // accepted by serf's own check, then memberlist refused the metadata by panicking
+			obs["ok"], obs["len"] = 1, 100000
+			return obs
+		}
 		if err != nil {
 			return obs
 		}
@@ -217,9 +239,9 @@ func (e *tagEnv) runSizeInput(st h.Step) map[string]interface{} {
 			h.Die("cannot create node: %v", err)
 		}
 		defer shutdown(a)
-		if err := a.Serf.SetTags(tags); err != nil {
+		if err := setTags(a, tags); err != nil {
 			// rejected: the node must still produce its old, fitting metadata
-			if meta, p := nodeMeta(a, 512); p || len(meta) > 512 {
+			if meta, p := nodeMeta(a, 512); err == errPanicked || p || len(meta) > 512 {
 				obs["ok"], obs["len"] = 1, 100000 // "accepted" in effect: metadata does not fit any more
 			}
 			return obs
